@@ -342,6 +342,14 @@ def gen_case(rng, nested):
     for _ in range(n_ops):
         r = rng.random()
         mi = rng.randrange(n_models)
+        if rng.random() < 0.12:
+            name = rng.choice(['show_auto', 'show_auto', 'show_conditions', 'show_attrs', 'title'])
+            case['ops'].append(['set_option', name, rng.choice(['T1', 'T2']) if name == 'title' else rng.random() < 0.6])
+            continue
+        if not case['enum'] and rng.random() < 0.06:
+            case['ops'].append(['add_callback', rng.choice(['on_enter', 'on_enter', 'on_exit']), rng.choice(cur_names),
+                                rng.choice(CBS)])
+            continue
         if not case['enum'] and n_models < 3 and rng.random() < 0.06:
             case['ops'].append(['add_model', rng.choice([None] + cur_tops)])
             n_models += 1
@@ -494,10 +502,8 @@ class Run(object):
         self.stack = {i: [] for i in range(len(self.models))}
         self.steps = {i: [] for i in range(len(self.models))}
         self.last_src = {i: None for i in range(len(self.models))}     # (scope prefix path, stored source path)
-        # open finding F-C16-locked-hierarchical-phantom: names (read at the root) of the children of compound states
-        # added later to a Locked hierarchical graph machine (which does not derive from HierarchicalMarkupMachine)
-        self.phantom = []
         cls = machine_class(self.nested, bool(case.get('locked')))
+        self.opts = dict(case['opts'])          # current display options (may be set later through the machine)
         o = case['opts']
         kw = dict(model=self.models, transitions=[trans_arg(t) for t in case['transitions']],
                   graph_engine='mermaid', show_conditions=o['show_conditions'],
@@ -563,10 +569,6 @@ class Run(object):
             if dst is not None:
                 self.last_src[i] = (pre, path_of(src))
 
-    def _note_phantom(self, st):
-        if self.nested and self.case.get('locked'):
-            self.phantom += [path_of(p) for c in st['children'] for p in rel_paths(c)]
-
     def _retrigger(self, model, ev):
         if self.budget > 0:
             self.budget -= 1
@@ -591,6 +593,24 @@ class Run(object):
                 if ev.startswith('to_') and self.attr != 'state':
                     ev = 'to_%s_%s' % (self.attr, ev[3:])
                 self.models[op[1]].trigger(ev)
+            elif kind == 'set_option':
+                # display options are plain / documented attributes of the machine; nothing regenerates the graphs
+                name, value = op[1], op[2]
+                if name == 'show_auto':
+                    self.machine.auto_transitions_markup = value
+                elif name == 'show_conditions':
+                    self.machine.show_conditions = value
+                elif name == 'show_attrs':
+                    self.machine.show_state_attributes = value
+                elif name == 'title':
+                    self.machine.title = value
+                if name in self.opts:
+                    self.opts[name] = value
+            elif kind == 'add_callback':
+                # machine.on_enter_<state>(callback) registered later; shown when state attributes are
+                getattr(self.machine, '%s_%s' % (op[1], op[2]))(op[3])
+                st = desc_index(self.states)[path_of(op[2])][0]
+                st['enter' if op[1] == 'on_enter' else 'exit'].append(op[3])
             elif kind == 'add_model':
                 m = self.model_cls()
                 i = len(self.models)
@@ -615,15 +635,12 @@ class Run(object):
                         parent['children'].append({'name': it['leaf'], 'label': None, 'final': False, 'enter': [],
                                                    'exit': [], 'initial': None, 'parallel': False, 'children': [],
                                                    'transitions': []})
-                        self._note_phantom(parent)       # the machine was scoped into the parent
                     else:
                         self.states.append(copy.deepcopy(it))
-                        self._note_phantom(it)
                 self.regen_all()
             elif kind == 'add_state':
                 self.machine.add_states(state_arg(op[1]))
                 self.states.append(copy.deepcopy(op[1]))
-                self._note_phantom(op[1])
                 self.regen_all()
             elif kind == 'add_transition':
                 self.machine.add_transition(**trans_arg(op[1]))
@@ -662,7 +679,7 @@ class Run(object):
         rows = []
         for pre, trig, t in self.live_transitions():
             auto = trig.startswith('to_')
-            if auto and not self.case['opts']['show_auto']:
+            if auto and not self.opts['show_auto']:
                 continue
             rows.append({
                 'pre': pre, 'trigger': trig, 'label': getattr(t, 'label', None) or None,
@@ -720,7 +737,7 @@ def enc_step(s):
 
 
 def enc_request(run, mi, roi):
-    o = run.case['opts']
+    o = run.opts
     rows = run.table()
     req = [int(run.nested), int(o['show_conditions']), int(o['show_attrs']), 0 if run.attr == 'state' else 1]
     req += enc_list(run.states, lambda s: enc_state(s, (), rows))
@@ -789,23 +806,6 @@ def decode_diagram(ans):
 # the oracle: the clauses of C16 stated directly on the parsed diagram and the live machine
 # ---------------------------------------------------------------------------------------------
 
-SIG_LOCKED_PHANTOM = 'C16.add_states.compound-phantom-states.locked-hierarchical'
-
-
-def phantom_states(run, d):
-    """declared names beyond the machine's states that are children (read as root names) of a compound state added
-    with add_states to a Locked hierarchical graph machine after the model was registered (open finding)"""
-    if not run.phantom:
-        return []
-    extra = [n.name for n, _ in d.all]
-    for p in desc_index(run.states):
-        if p in extra:
-            extra.remove(p)
-    if extra and all(p in run.phantom for p in extra):
-        return sorted(set(extra))
-    return []
-
-
 def desc_index(states, pre=()):
     """{path: (state description, parent path or None)}"""
     out = {}
@@ -840,10 +840,6 @@ def oracle_full(run, mi, d):
     """clauses on the full diagram `d` (Parsed) of model `mi`; returns [(what, details, signature)]"""
     fails = []
     idx = desc_index(run.states)
-    ph = phantom_states(run, d)
-    if ph:
-        # the markup itself carries a stale root 'children' key: nothing else can be judged on this diagram
-        return [('phantom-states', {'phantom': [name_of(p) for p in ph]}, SIG_LOCKED_PHANTOM)]
     # -- every state declared exactly once, children inside their parents, regions separated
     declared = [n.name for n, _ in d.all]
     if sorted(declared) != sorted(idx):
@@ -878,7 +874,7 @@ def oracle_full(run, mi, d):
     if d.root_init != path_of(run.case['initial']):
         fails.append(('initial-marker', {'root': d.root_init and name_of(d.root_init)}, 'C16.initial'))
     # -- edges <-> transitions of the live machine
-    fails += oracle_edges(run, d, expected_labels(run.table(), run.case['opts']['show_conditions']), exact=True)
+    fails += oracle_edges(run, d, expected_labels(run.table(), run.opts['show_conditions']), exact=True)
     # -- activity
     fails += oracle_activity(run, mi, d)
     return fails
@@ -938,13 +934,9 @@ def oracle_roi(run, mi, d):
     if miss:
         fails.append(('roi-active-missing', {'missing': miss}, 'C16.roi.active'))
     rows = [r for r in run.table() if (r['pre'] + r['src']) in cur]
-    exp = expected_labels(rows, run.case['opts']['show_conditions'])
-    ph = set(name_of(p) for p in run.phantom)
+    exp = expected_labels(rows, run.opts['show_conditions'])
     for w, det, sig in oracle_edges(run, d, exp, exact=False):
-        sig = sig.replace('C16.edges', 'C16.roi.edges')
-        if w == 'edge-label' and det['edge'][0] in ph and all(x in det['labels'] for x in det['expected']):
-            sig = SIG_LOCKED_PHANTOM      # extra labels from the stale markup (open finding)
-        fails.append(('roi-' + w, det, sig))
+        fails.append(('roi-' + w, det, sig.replace('C16.edges', 'C16.roi.edges')))
     for (s, t) in exp:
         if t in idx and t not in declared:
             fails.append(('roi-target-missing', {'edge': [name_of(s), name_of(t)]}, 'C16.roi.target'))
